@@ -1,4 +1,4 @@
-// C06 - the permuting algorithms on a move-only element type (the standard requires only
+// C06 - the permuting algorithms on a move-only element type whose self-move-assignment is destructive (the standard requires only
 //       MoveConstructible/MoveAssignable/Swappable for them)  vs libstdc++ (DESIGN 4, C06)
 // -DC06_MO_PART=1: everything that compiles on the unfixed tree; =2: stable_sort / insertion_sort (copy their elements there)
 #include "vf.hpp"
@@ -31,6 +31,12 @@ struct Mo {
             key   = o.key;
             tag   = o.tag;
             o.key = MOVED;
+        } else {
+            // destructive under self-move-assignment (like a handle that releases its resource before taking the
+            // other one): Cpp17MoveAssignable promises nothing for t = move(t), so no algorithm may depend on it.
+            // A move-based self-swap (tmp = move(a); a = move(a); a = move(tmp)) still ends with the right value;
+            // only final values are judged, against libstdc++ run on the plain copyable element.
+            key = SELF_MOVED;
         }
         return *this;
     }
@@ -56,6 +62,14 @@ struct MoRange {
     Mo* hi;
     std::size_t n;
     Pres pres;
+    vi::Desc<Mo> desc;
+    template <typename K>
+    typename K::template it<Mo> at(std::size_t i)
+    {
+        desc.lo = lo;
+        desc.hi = hi;
+        return K::template make<Mo>(lo ? lo + i : nullptr, &desc);
+    }
     MoRange(Seq const& v, Pres p) : buf(p == Pres::embedded ? v.size() + 2 * PAD : (p == Pres::null ? 0 : v.size())), n(v.size()), pres(p)
     {
         if (p == Pres::null) {
@@ -90,19 +104,10 @@ struct MoRange {
         return true;
     }
 };
-inline std::vector<Mo> to_mo(Seq const& s)
-{
-    std::vector<Mo> v;
-    v.reserve(s.size());
-    for (auto const& e : s) { v.emplace_back(e.key, e.tag); }
-    return v;
-}
-inline Seq from_mo(std::vector<Mo> const& v)
-{
-    Seq s;
-    for (auto const& e : v) { s.push_back(El{e.key, e.tag}); }
-    return s;
-}
+// the reference runs libstdc++ on the plain element El (its self-move-assignment is harmless; libstdc++'s own
+// unique/remove self-move-assign), tetl runs on Mo
+inline Seq to_mo(Seq const& s) { return s; }
+inline Seq from_mo(Seq const& v) { return v; }
 inline std::vector<Pres> mo_pres(std::size_t n)
 {
     std::vector<Pres> v{Pres::exact, Pres::embedded};
@@ -253,7 +258,7 @@ void t_mo_inplace(Ctx& c)
         for (int v = 0; v <= c.maxkey + 1; ++v) {
             Mo const val{v, -1};
             auto m  = to_mo(c.a);
-            auto se = std::remove(m.begin(), m.end(), val) - m.begin();
+            auto se = std::remove(m.begin(), m.end(), El{v, -1}) - m.begin();
             Trial t(c, KIND, "remove(f,l,v)", pr, se == 0 ? "all-removed" : (se == (long)n ? "none-removed" : "some-removed"), 40 + v, "v=%d", v);
             MoRange r(c.a, pr);
             auto ret = t.call([&] { return etl::remove(r.lo, r.hi, val); });
@@ -406,6 +411,26 @@ void t_mo_move(Ctx& c)
             d.buf.check("output");
             mo_fin(t, r);
         }
+        for (std::size_t k = 1; k <= n; ++k) { // within one range: the overlaps the standard permits
+            {
+                Trial t(c, KIND, "move(f,l,d)", pr, "overlapping-left", 100 + k, "shift=%zu", k);
+                MoRange r(c.a, pr);
+                auto ret = t.call([&] { return etl::move(r.lo + k, r.hi, r.lo); });
+                t.off("ret", ret - r.lo, (long)(n - k));
+                Seq got = r.get();
+                t.seq("moved-part", Seq(got.begin(), got.end() - (long)k), Seq(c.a.begin() + (long)k, c.a.end()));
+                mo_fin(t, r);
+            }
+            {
+                Trial t(c, KIND, "move_backward(f,l,dl)", pr, "overlapping-right", 200 + k, "shift=%zu", k);
+                MoRange r(c.a, pr);
+                auto ret = t.call([&] { return etl::move_backward(r.lo, r.hi - k, r.hi); });
+                t.off("ret", ret - r.lo, (long)k);
+                Seq got = r.get();
+                t.seq("moved-part", Seq(got.begin() + (long)k, got.end()), Seq(c.a.begin(), c.a.end() - (long)k));
+                mo_fin(t, r);
+            }
+        }
         {
             Seq y(c.a.rbegin(), c.a.rend());
             for (auto& e : y) { e.tag += 200; }
@@ -441,11 +466,134 @@ void t_mo_move(Ctx& c)
     }
 }
 
+// ---------------------------------------------------------------- the same element through the iterator wrappers (weakest category each)
+template <typename K>
+void mo_wrapped_fwd(Ctx& c)
+{
+    std::size_t const n = c.a.size();
+    char kind[48];
+    std::snprintf(kind, sizeof kind, "%s<move-only>", K::name);
+    for (Pres pr : pres_for<K>(n)) {
+        for (int em = -1; em <= 1; ++em) {
+            Eq eq{em < 0 ? 0 : em};
+            Seq m   = c.a;
+            auto se = (em < 0 ? std::unique(m.begin(), m.end()) : std::unique(m.begin(), m.end(), eq)) - m.begin();
+            char op[48];
+            std::snprintf(op, sizeof op, "unique(f,l%s)%s", em < 0 ? "" : ",p", eq_name(em));
+            Trial t(c, kind, op, pr, se == (long)n ? "no-duplicates" : "duplicates", 80 + em, "-");
+            MoRange r(c.a, pr);
+            auto ret = em < 0 ? t.call([&] { return etl::unique(r.at<K>(0), r.at<K>(n)); }) : t.call([&] { return etl::unique(r.at<K>(0), r.at<K>(n), eq); });
+            if (t.off("ret", K::raw(ret) - r.lo, se)) {
+                Seq got = r.get();
+                got.resize((std::size_t)se);
+                m.resize((std::size_t)se);
+                t.seq("kept-part", got, m);
+            }
+            mo_fin(t, r);
+        }
+        for (auto const& ps : kPreds) {
+            Pred p{ps.mode, ps.arg};
+            {
+                Seq m   = c.a;
+                auto se = std::remove_if(m.begin(), m.end(), p) - m.begin();
+                Trial t(c, kind, "remove_if(f,l,p)", pr, se == 0 ? "all-removed" : (se == (long)n ? "none-removed" : "some-removed"), vf::mix(50 + ps.mode, ps.arg),
+                    "pred %s", ps.name);
+                MoRange r(c.a, pr);
+                auto ret = t.call([&] { return etl::remove_if(r.at<K>(0), r.at<K>(n), p); });
+                if (t.off("ret", K::raw(ret) - r.lo, se)) {
+                    Seq got = r.get();
+                    got.resize((std::size_t)se);
+                    m.resize((std::size_t)se);
+                    t.seq("kept-part", got, m);
+                }
+                mo_fin(t, r);
+            }
+            {
+                long cnt = std::count_if(c.a.begin(), c.a.end(), p);
+                Trial t(c, kind, "partition(f,l,p)", pr, cnt == 0 ? "none-true" : (cnt == (long)n ? "all-true" : "mixed"), vf::mix(60 + ps.mode, ps.arg), "pred %s",
+                    ps.name);
+                MoRange r(c.a, pr);
+                auto ret = t.call([&] { return etl::partition(r.at<K>(0), r.at<K>(n), p); });
+                Seq got  = r.get();
+                t.off("ret", K::raw(ret) - r.lo, cnt);
+                if (t.permutation("range", got, c.a)) {
+                    t.require("range:not-partitioned", std::is_partitioned(got.begin(), got.end(), p), show(got), "all true elements before all false ones");
+                }
+                mo_fin(t, r);
+            }
+        }
+        for (std::size_t mid = 0; mid <= n; ++mid) {
+            Seq m   = c.a;
+            auto se = std::rotate(m.begin(), m.begin() + (long)mid, m.end()) - m.begin();
+            Trial t(c, kind, "rotate(f,m,l)", pr, mid == 0 ? "mid=first" : (mid == n ? "mid=last" : "mid-inner"), 1 + mid, "mid=%zu", mid);
+            MoRange r(c.a, pr);
+            auto ret = t.call([&] { return etl::rotate(r.at<K>(0), r.at<K>(mid), r.at<K>(n)); });
+            t.off("ret", K::raw(ret) - r.lo, se);
+            t.seq("range", r.get(), m);
+            mo_fin(t, r);
+        }
+        for (long k = 0; k <= (long)n + 1; ++k) {
+            Seq m   = c.a;
+            auto se = std::shift_left(m.begin(), m.end(), k) - m.begin();
+            Trial t(c, kind, "shift_left(f,l,n)", pr, ncls(k, n), 90 + (std::uint64_t)k, "n=%ld", k);
+            MoRange r(c.a, pr);
+            auto ret = t.call([&] { return etl::shift_left(r.at<K>(0), r.at<K>(n), k); });
+            if (t.off("ret", K::raw(ret) - r.lo, se)) {
+                Seq got = r.get();
+                got.resize((std::size_t)se);
+                m.resize((std::size_t)se);
+                t.seq("shifted-part", got, m);
+            }
+            mo_fin(t, r);
+        }
+        if constexpr (!std::is_same_v<K, KFwd>) {
+            {
+                Seq m(c.a.rbegin(), c.a.rend());
+                Trial t(c, kind, "reverse(f,l)", pr, n % 2 ? "odd" : "even", 30, "-");
+                MoRange r(c.a, pr);
+                t.call([&] { etl::reverse(r.at<K>(0), r.at<K>(n)); });
+                t.seq("range", r.get(), m);
+                mo_fin(t, r);
+            }
+            for (long k = 0; k <= (long)n + 1; ++k) {
+                Seq m   = c.a;
+                auto se = std::shift_right(m.begin(), m.end(), k) - m.begin();
+                Trial t(c, kind, "shift_right(f,l,n)", pr, ncls(k, n), 120 + (std::uint64_t)k, "n=%ld", k);
+                MoRange r(c.a, pr);
+                auto ret = t.call([&] { return etl::shift_right(r.at<K>(0), r.at<K>(n), k); });
+                if (t.off("ret", K::raw(ret) - r.lo, se)) {
+                    Seq got = r.get();
+                    t.seq("shifted-part", Seq(got.begin() + se, got.end()), Seq(m.begin() + se, m.end()));
+                }
+                mo_fin(t, r);
+            }
+            for (auto const& ps : kPreds) {
+                Pred p{ps.mode, ps.arg};
+                Seq m   = c.a;
+                auto se = std::stable_partition(m.begin(), m.end(), p) - m.begin();
+                Trial t(c, kind, "stable_partition(f,l,p)", pr, se == 0 ? "none-true" : (se == (long)n ? "all-true" : "mixed"), vf::mix(70 + ps.mode, ps.arg),
+                    "pred %s", ps.name);
+                MoRange r(c.a, pr);
+                auto ret = t.call([&] { return etl::stable_partition(r.at<K>(0), r.at<K>(n), p); });
+                t.off("ret", K::raw(ret) - r.lo, se);
+                t.seq("range", r.get(), m);
+                mo_fin(t, r);
+            }
+        }
+    }
+}
+void t_mo_wrapped(Ctx& c)
+{
+    mo_wrapped_fwd<KFwd>(c);
+    mo_wrapped_fwd<KBidi>(c);
+}
+
 Test const kTests[] = {
     {"mo_sorts", t_mo_sorts},
     {"mo_partial", t_mo_partial},
     {"mo_inplace", t_mo_inplace},
     {"mo_move", t_mo_move},
+    {"mo_wrapped", t_mo_wrapped},
 };
 std::size_t const kNumTests = sizeof(kTests) / sizeof(kTests[0]);
 } // namespace c06
